@@ -101,6 +101,7 @@ func genDispatch(c *ctx) string {
 	b.WriteString("def dupScalarDropped : Bool := " + dupScalarForm(c) + "\n")
 	b.WriteString("def dirArgWrapperAccepted : Bool := " + dirArgTypeTest(c) + "\n")
 	b.WriteString("def descRaw : Bool := " + descForm(c) + "\n")
+	b.WriteString("def assureOnce : Bool := " + assureSchemaForm(c) + "\n")
 	tod, ter := toolForms(c)
 	b.WriteString("def toolOmitsDirectives : Bool := " + tod + "\n")
 	b.WriteString("def toolEmbedRaw : Bool := " + ter + "\n")
@@ -517,4 +518,42 @@ func toolForms(c *ctx) (omitsDirectives, embedRaw string) {
 		return
 	}
 	return
+}
+
+// assureSchemaForm reads (*Root).assureSchema and its callers.  Known forms: the operation roots are bound
+// once, while root.schema == nil, by a call placed before validate in ParseReader only (D34: a Query type
+// arriving in a later load is never bound; a root filled through AddTypes has no schema at all); or an
+// implied schema (not given by a schema block) picks up the default root types defined so far on every
+// successful ParseReader / AddTypes, after validation, so that a failed load leaves it untouched.
+func assureSchemaForm(c *ctx) string {
+	fd, pr, at := c.funcs["Root.assureSchema"], c.funcs["Root.ParseReader"], c.funcs["Root.AddTypes"]
+	if fd == nil || pr == nil || at == nil {
+		return unknown("assureSchema", "root.go")
+	}
+	norm := func(n ast.Node) string {
+		t := regexp.MustCompile(`(?m)//.*$`).ReplaceAllString(c.src(n), "")
+		return regexp.MustCompile(`\s+`).ReplaceAllString(t, " ")
+	}
+	body, prs, ats := norm(fd.Body), norm(pr.Body), norm(at.Body)
+	const once = `{ if root.schema == nil { root.schema = &Schema{Object: Object{fields: fieldList{dict: map[string]*FieldDef{}}}} for _, cap := range []string{"Query", "Mutation", "Subscription"} { if t := root.types.get(cap); t != nil { name := strings.ToLower(cap) _ = root.schema.fields.add(&FieldDef{Base: Base{N: name}, Type: t}) } } } }`
+	const every = `{ if root.schema == nil { root.schema = &Schema{Object: Object{fields: fieldList{dict: map[string]*FieldDef{}}}, implied: true} } if root.schema.implied { for _, cap := range []string{"Query", "Mutation", "Subscription"} { name := strings.ToLower(cap) if t := root.types.get(cap); t != nil && root.schema.fields.get(name) == nil { _ = root.schema.fields.add(&FieldDef{Base: Base{N: name}, Type: t}) } } } }`
+	// `implied` may be mentioned by assureSchema only: a schema block must not produce an implied schema
+	others := 0
+	for name, f := range c.funcs {
+		if name != "Root.assureSchema" && f.Body != nil && strings.Contains(c.src(f.Body), "implied") {
+			others++
+		}
+	}
+	switch {
+	case body == once && strings.Contains(prs, "if err == nil { root.assureSchema() err = root.validate() }") &&
+		!strings.Contains(ats, "assureSchema") && others == 0:
+		return "true"
+	case body == every && others == 0 &&
+		strings.Contains(prs, "if err == nil { err = root.validate() } if err != nil { root.types = origTypes root.dirs = origDirs root.schema = origSchema } else { root.assureSchema() } return err") &&
+		strings.Count(prs, "assureSchema") == 1 &&
+		strings.Contains(ats, "if err == nil { err = root.validate() } if err != nil { root.types = origTypes root.dirs = origDirs } else { root.assureSchema() } return") &&
+		strings.Count(ats, "assureSchema") == 1:
+		return "false"
+	}
+	return unknown("assureSchema form", c.pos(fd))
 }
